@@ -4,6 +4,7 @@ CONSTANTS
   Hints = {70000, 512, 1232, 4096}
   Lens = {100, 511, 512, 513, 700, 1233, 5000}
   OptLens = {0, 11, 300}
+  ROpts = {"none", "keepalive", "padding", "cookie", "nsid", "unknown", "several"}
   QLens = {17, 259}
 SPECIFICATION Spec
 INVARIANT Emit
